@@ -154,6 +154,17 @@ def generate(rng, tier):
         g["scale"].append("PIXEQ %s %d %d %s | %s" % (kind, w2, rng.choice(sizes[:9]), " ".join(t), " ".join(s.tokens(k=k))))
         s2 = Script(rng, gradients=False)
         g["indirect-colours"].append("PIXEQ %s %d %d %s | %s" % (kind, w2, w2, " ".join(s2.tokens()), " ".join(s2.tokens(direct=True))))
+        if rng.below(4) == 0:
+            vbg = ["c2000000", "c2000000", "42000000", "42000000"]
+            sel = rng.range(20, 40)
+            j = rng.range(41, 60)
+            stops = R.good_stops(rng, rng.choice([2, 3]))
+            base = ["R"] + vbg + ["-"] + R.gradient_regs(rng, 10, 10, stops, rng.below(2), rng.choice([1, 2, 3]), sel=sel)
+            desc = base[-1]
+            blend = "b%02x%02x%02x" % (rng.below(256), 0xc0 | sel, 0xc0 | sel)
+            a = base + ["CS", str(j), "CR", "0", "0", blend] + R.full_rect_path(vbg)
+            b = base + ["CS", str(j), "CR", "0", "0", desc] + R.full_rect_path(vbg)
+            g.setdefault("blended-gradient", []).append("PIXEQ %s %d %d %s | %s" % (kind, w2, w2, " ".join(a), " ".join(b)))
         s3 = Script(rng)
         t3 = s3.tokens()
         # make sure translucent flat colours occur so that Src and Over differ
